@@ -1,6 +1,12 @@
 import CnbVerif.Spec.Frame
 /-! Driver glue for C11: parse a tree and a request, run the model, render result + snapshots; judge the
-implementation's two snapshots with `Spec.Frame.judgeRequest`.
+implementation's two snapshots with `Spec.Frame.judgeOutcome`.
+
+The request field names the API and what the buildpack's callbacks do: `U` `C` `T` (every callback succeeds and decides
+to delete), `Cd` `Td` (the deciding callback returns `Err`), `Tc` (`Layer::create` returns `Err`). Results: `ok:new`,
+`ok:recreated`, `err:read|delete|write`, `err:decide` (the deciding callback's error came back: nothing was deleted),
+`err:create` (`create`'s error, no layer had been deleted), `err:recreate` (`create`'s error after the existing layer
+had been deleted).
 
 Hard links: the tree entry `H:<path>:<target path>` makes `<path>` another name of the regular file `F:<target path>:…`
 (which must be an `F` entry of the same tree); that file and all the `H` entries naming it become `Node.hard i mode
@@ -122,11 +128,14 @@ def renderNode (fs : FS) (p : Path) : Node → String
 def renderSnap (fs : FS) : String :=
   joinWith "|" ((sortBy (fun a b => pathLt a.1 b.1) fs).map (fun kv => renderNode fs kv.1 kv.2))
 
-def parseApi (s : String) : Option Api :=
-  if s = "U" then some .uncached else if s = "C" then some .cached else if s = "T" then some .handle else none
+def parseApi (s : String) : Option (Api × Bp) :=
+  if s = "U" then some (.uncached, .ok) else if s = "C" then some (.cached, .ok) else if s = "T" then some (.handle, .ok)
+  else if s = "Cd" then some (.cached, .decideErr) else if s = "Td" then some (.handle, .decideErr)
+  else if s = "Tc" then some (.handle, .createErr) else none
 
 def renderStage : Stage → String
   | .read => "read" | .delete => "delete" | .write => "write"
+  | .decide => "decide" | .create => "create" | .recreate => "recreate"
 
 def renderRes : Except (Stage × Err) Bool → String
   | .ok true => "ok:recreated"
@@ -138,14 +147,22 @@ def judge (api : Api) (n : Name) (obs : String) : String :=
   | [res, before, after] =>
     match parseTree " " before "|", parseTree " " after "|" with
     | some b, some a =>
-      let known := res = "ok:recreated" ∨ res = "ok:new" ∨ res = "err:read" ∨ res = "err:delete" ∨ res = "err:write"
+      let known := res = "ok:recreated" ∨ res = "ok:new" ∨ res = "err:read" ∨ res = "err:delete" ∨ res = "err:write" ∨
+        res = "err:decide" ∨ res = "err:create" ∨ res = "err:recreate"
       if ¬ known then "fail:unexpected result " ++ res else
+      let o : Spec.Frame.Outcome :=
+        if res = "ok:recreated" then .recreated else if res = "err:recreate" then .failedCreate
+        else if res = "err:decide" then .failedDecide else .other
       match Spec.Frame.frameBreach n b a with
       | some p => "fail:frame: " ++ renderPath p ++ " is outside the layer and changed"
       | none =>
         if res = "ok:recreated" && !Spec.Frame.recreatedB n (Spec.Frame.freshDoc api) a then
           "fail:recreated: the request succeeded but old entries of the layer remain (or no fresh layer)"
-        else if Spec.Frame.judgeRequest n (Spec.Frame.freshDoc api) (res = "ok:recreated") b a then "ok"
+        else if res = "err:recreate" && !Spec.Frame.oldGoneB n b a then
+          "fail:old-entries: the layer was deleted, then create failed, but entries of the old layer are still there"
+        else if res = "err:decide" && !Spec.Frame.intactB n b a then
+          "fail:not-intact: the deciding callback failed before any deletion, but entries of the layer are gone or changed"
+        else if Spec.Frame.judgeOutcome n (Spec.Frame.freshDoc api) o b a then "ok"
         else "fail:spec"
     | _, _ => "fail:unparsable snapshot"
   | _ => "fail:unparsable observation"
@@ -155,9 +172,9 @@ def handle (fields : List String) (obs : String) : String × String :=
   | [apiS, uidS, nameS, treeS] =>
     match parseApi apiS, (if uidS = "root" then some true else if uidS = "user" then some false else none),
         hexDecode nameS, parseInputTree treeS with
-    | some api, some root, some n, some fs =>
+    | some (api, bp), some root, some n, some fs =>
       if n = [] ∨ !buildable fs then ("bad-op", "bad-op") else
-      let r := request root api fs n
+      let r := request root api bp fs n
       (renderRes r.1 ++ "@" ++ renderSnap fs ++ "@" ++ renderSnap r.2, judge api n obs)
     | _, _, _, _ => ("bad-op", "bad-op")
   | _ => ("bad-op", "bad-op")
